@@ -211,6 +211,9 @@ def _tlc_mc(module, cfg_text, tag, workers=4, timeout=900, simulate=None, seed=N
             sm = _STATS_RE.search(line)
             if sm:
                 res.generated, res.distinct = int(sm.group(1)), int(sm.group(2))
+            cm = re.match(r"^<(\w+) line \d+, col \d+ to line \d+, col \d+ of module (\w+)>: (\d+):(\d+)", line)
+            if cm:      # -coverage 1: distinct states found / states generated by the action
+                res.coverage[cm.group(1)] = [int(cm.group(3)), int(cm.group(4))]
             vm = re.search(r"Invariant (\w+) is violated", line)
             if vm:
                 res.violated = vm.group(1)
@@ -478,6 +481,8 @@ class Report:
     def add_tlc(self, r):
         self.states += r.distinct
         self.transitions += r.generated
+        if r.coverage:      # per-action [distinct, generated] counts of a run made with -coverage 1 (vacuity evidence)
+            self.extra.setdefault("tlc_action_coverage", []).append(r.coverage)
 
     def add_trace(self, tr):
         self.states += tr.distinct
